@@ -397,13 +397,20 @@ func (r *transport) serveFromCache(
 		}
 	}
 	internal.SetAgeHeader(stored.Data, r.clock, freshness.Age)
-	internal.CacheStatusHit.ApplyTo(stored.Data.Header)
-	r.logger.LogCacheHit(req, urlKey, internal.MiscFunc(func() internal.Misc {
+	misc := internal.MiscFunc(func() internal.Misc {
 		return internal.Misc{
 			Stored:    stored,
 			Freshness: freshness,
 		}
-	}))
+	})
+	if freshness.IsStale {
+		// Served although stale (only-if-cached): say so.
+		internal.CacheStatusStale.ApplyTo(stored.Data.Header)
+		r.logger.LogCacheStale(req, urlKey, misc)
+	} else {
+		internal.CacheStatusHit.ApplyTo(stored.Data.Header)
+		r.logger.LogCacheHit(req, urlKey, misc)
+	}
 	return stored.Data, nil
 }
 
